@@ -449,6 +449,9 @@ pub enum Op {
     Replace { sig: Sig },
     /// add one attacker record to the RRset (signatures kept)
     AddRecord,
+    /// the same, but the added record has class CH: same owner and type, so it is grouped with the
+    /// signed RRset, while the signed data only ever contains the IN records
+    AddRecordOtherClass,
     /// DS only: digest and key tag of the attacker's key
     SwapDs,
     /// inject a new attacker RRset into the section; `own` = owner is the query name of that
@@ -753,7 +756,7 @@ fn apply_fault(m: &mut Message, f: &Fault, qname: &Name, qtype: RecordType, zone
                         !(k.0 == key.0 && k.1 == key.1)
                     });
                 }
-                Op::AddRecord => {
+                Op::AddRecord | Op::AddRecordOtherClass => {
                     if key.2 {
                         return Err("is-rrsig");
                     }
@@ -763,7 +766,11 @@ fn apply_fault(m: &mut Message, f: &Fault, qname: &Name, qtype: RecordType, zone
                         return Err("attacker-data-equals-genuine");
                     }
                     let ttl = v[idx].ttl;
-                    v.insert(idx + 1, rec(&owner, ttl, d));
+                    let mut added = rec(&owner, ttl, d);
+                    if f.op == Op::AddRecordOtherClass {
+                        added.dns_class = hickory_proto::rr::DNSClass::CH;
+                    }
+                    v.insert(idx + 1, added);
                 }
                 Op::Replace { sig } => {
                     if key.2 {
@@ -1156,6 +1163,7 @@ fn enumerate_faults(world: &World, log: &[Exchange], keep_first: bool) -> Vec<Fa
                 push(sec, i, Op::DropRrset);
                 if attacker_rdata(key.1, &r.name, &ex.zone, &world.attacker, Some(&r.data)).is_some() {
                     push(sec, i, Op::AddRecord);
+                    push(sec, i, Op::AddRecordOtherClass);
                     for sig in [Sig::Keep, Sig::None, Sig::Attacker] {
                         if sig == Sig::Keep && !has_sigs {
                             continue;
@@ -1651,6 +1659,7 @@ fn op_label(op: &Op) -> &'static str {
         Op::Replace { sig: Sig::None } => "replace-unsigned",
         Op::Replace { sig: Sig::Attacker } => "replace-attacker-signed",
         Op::AddRecord => "add-record",
+        Op::AddRecordOtherClass => "add-record-class-ch",
         Op::SwapDs => "swap-ds",
         Op::Inject { signed: false, .. } => "inject-unsigned",
         Op::Inject { signed: true, .. } => "inject-attacker-signed",
@@ -1799,7 +1808,7 @@ fn scenarios(seed: u64, n: usize) -> Vec<Scenario> {
 fn constructive(f: &Fault) -> bool {
     matches!(
         f.op,
-        Op::Replace { .. } | Op::Inject { .. } | Op::DropRrset | Op::DropRrsigs | Op::SwapDs | Op::AddRecord | Op::Empty | Op::StripDnssec | Op::DropNsec | Op::Replay { .. }
+        Op::Replace { .. } | Op::Inject { .. } | Op::DropRrset | Op::DropRrsigs | Op::SwapDs | Op::AddRecord | Op::AddRecordOtherClass | Op::Empty | Op::StripDnssec | Op::DropNsec | Op::Replay { .. }
     )
 }
 
@@ -1826,7 +1835,7 @@ fn pick_double(c: &DoubleCase, p: &Prepared) -> Result<Vec<Planned>, String> {
                     Kind::Top => f.sec != Sec::Ar && matches!(f.op, Op::Replace { sig: Sig::None } | Op::Inject { signed: false, .. } | Op::DropRrsigs | Op::StripDnssec),
                     // a foreign key in a DNSKEY RRset, unsigned DS / DNSKEY RRsets
                     Kind::Chain => {
-                        (qt == RecordType::DNSKEY && rt == Some(RecordType::DNSKEY) && matches!(f.op, Op::AddRecord | Op::Replace { .. } | Op::DropRrsigs))
+                        (qt == RecordType::DNSKEY && rt == Some(RecordType::DNSKEY) && matches!(f.op, Op::AddRecord | Op::AddRecordOtherClass | Op::Replace { .. } | Op::DropRrsigs))
                             || (qt == RecordType::DNSKEY && matches!(f.op, Op::Inject { own: true, ns: false, .. } | Op::StripDnssec))
                             || (qt == RecordType::DS && matches!(f.op, Op::DropRrsigs | Op::StripDnssec | Op::Replace { sig: Sig::None }))
                     }
@@ -1884,8 +1893,8 @@ fn pick_double(c: &DoubleCase, p: &Prepared) -> Result<Vec<Planned>, String> {
                 .filter(|f| {
                     let (kind, qt, rt) = target_type(f);
                     kind != Kind::Top
-                        && ((qt == RecordType::DNSKEY && rt == Some(RecordType::DNSKEY) && matches!(f.op, Op::Replace { .. } | Op::AddRecord))
-                            || (qt == RecordType::DS && rt == Some(RecordType::DS) && matches!(f.op, Op::Replace { .. } | Op::SwapDs | Op::AddRecord | Op::DropRrset))
+                        && ((qt == RecordType::DNSKEY && rt == Some(RecordType::DNSKEY) && matches!(f.op, Op::Replace { .. } | Op::AddRecord | Op::AddRecordOtherClass))
+                            || (qt == RecordType::DS && rt == Some(RecordType::DS) && matches!(f.op, Op::Replace { .. } | Op::SwapDs | Op::AddRecord | Op::AddRecordOtherClass | Op::DropRrset))
                             || (qt == RecordType::DS && matches!(f.op, Op::Empty | Op::Replay { .. } | Op::DropNsec | Op::StripDnssec))
                             || (kind == Kind::Probe && matches!(f.op, Op::Inject { ns: true, .. })))
                 })
